@@ -202,6 +202,10 @@ func (m *StringifiedMessage) encode(d *Decoder, sb *strings.Builder, tagType byt
 		if listLen < 0 {
 			return errors.New("list length less than 0")
 		}
+		if listType > TagLongArray {
+			// the element decoder is only asked per element: an empty list has to be checked here
+			return fmt.Errorf("unknown list element type %#02x", listType)
+		}
 		first := true
 		sb.WriteString("[")
 		for i := 0; i < int(listLen); i++ {
